@@ -1,7 +1,8 @@
 (* Properties/C04.v -- Missing data never enters a score as a number.
-   Statements about Model/Data.v (tied to verif/data.py by ./check C04); axiom-free. *)
-From Coq Require Import ZArith List Bool.
-From VF Require Import Model.Data Proofs.Data_lemmas Proofs.Data_score Proofs.Data_coord Proofs.C03_proofs.
+   Statements about Model/Data.v (tied to verif/data.py by ./check C04); axiom-free, except the last block
+   (the token rule of the text reader, GENERATED from verif/input.py Text._clean, over the extended reals). *)
+From Coq Require Import Reals ZArith List Bool.
+From VF Require Import Base.Num Gen.Gen_io Model.Data Proofs.Data_lemmas Proofs.Data_score Proofs.Data_coord Proofs.C03_proofs Proofs.C04_text.
 Import ListNotations.
 
 Section P.
@@ -45,3 +46,19 @@ Print Assumptions C04_missing_anywhere_is_missing_everywhere.
 Example C04_nonvacuous :
   keep_valid nat (valid_mask nat [[Some 1; None; Some 3]; [Some 4; Some 5; None]]%nat) [Some 1; None; Some 3]%nat = [Some 1%nat].
 Proof. vm_compute. reflexivity. Qed.
+
+(* ---- the text reader's token rule (generated): `parsed` = what Python's float(token) returns, None = ValueError ------ *)
+(* a token that is not a number (NA, na, missing, ...) is missing *)
+Theorem C04_unparsable_token_is_missing : text_cell XR None = NaN.
+Proof. exact text_unparsable. Qed.
+(* a token that parses to the NUMBER -999 is missing, however it is spelled (-999, -999.0, -9.99e2: same parsed value) *)
+Theorem C04_minus_999_token_is_missing : text_cell XR (Some (Fin (-999)%R)) = NaN.
+Proof. exact text_sentinel. Qed.
+Theorem C04_nan_token_is_missing : text_cell XR (Some NaN) = NaN.
+Proof. exact text_nan. Qed.
+(* every other number is delivered exactly, and the placeholder never comes out as a number *)
+Theorem C04_other_tokens_unchanged : forall r : R, r <> (-999)%R -> text_cell XR (Some (Fin r)) = Fin r.
+Proof. exact text_keeps. Qed.
+Theorem C04_placeholder_never_delivered : forall p, text_cell XR p <> Fin (-999)%R.
+Proof. exact text_never_placeholder. Qed.
+Print Assumptions C04_placeholder_never_delivered.
